@@ -208,16 +208,28 @@ func workerSearch(t *testing.T, job *Job, enc *json.Encoder) {
 				sum.AbandonedPanics = append(sum.AbandonedPanics, res.Panics[0])
 			}
 		case "violation":
-			v := res.Violations[0]
-			if known[v.Signature] {
-				sum.Known[v.Signature]++
-				if !reported["known:"+v.Signature] {
-					reported["known:"+v.Signature] = true
+			// a run may violate several clauses: it counts as known only if all of them are
+			var v *Violation
+			for i := range res.Violations {
+				if !known[res.Violations[i].Signature] {
+					v = &res.Violations[i]
+					break
+				}
+			}
+			if v == nil {
+				for _, kv := range res.Violations {
+					sum.Known[kv.Signature]++
+				}
+				kv := res.Violations[0]
+				if !reported["known:"+kv.Signature] {
+					reported["known:"+kv.Signature] = true
 					_ = enc.Encode(map[string]any{"kind": "known", "result": res})
 				}
 			} else if !reported[v.Signature] && nviol < 12 {
 				reported[v.Signature] = true
 				nviol++
+				// put the unknown violation first: that is the one to minimise
+				res.Violations[0], *v = *v, res.Violations[0]
 				_ = enc.Encode(map[string]any{"kind": "violation", "result": res})
 			}
 		}
